@@ -1,6 +1,8 @@
 (* C11 - the wallet birthday is never later than creation and accurate to one month.
    reported t = what polyseed_get_birthday returns for a seed created at clock value t. *)
 From PS Require Import Base MiscDefs SpecDefs MiscProofs ApiDefs ApiTheorems.
+From PS Require Import CTieBase CTieBday.
+From PS.Gen Require CFuns.
 From PS.Gen Require Import Consts Langs.
 Local Open Scope N_scope.
 
@@ -43,3 +45,12 @@ Theorem C11_index : forall t, t < 2 ^ 64 ->
   birthday_decode (birthday_encode t) = spec_birthday_time (spec_birthday_index t).
 Proof. exact bday_is_spec. Qed.
 Print Assumptions C11_index.
+
+(* ---- the tie to the code: birthday.h as TRANSLATED from /repo's current source on this run
+   (Gen/CFuns.v) equals the mirror the theorems above are about, for EVERY uint64_t clock value and
+   every unsigned birthday (64-bit wrap-around written out in the translation) *)
+Theorem C11_code_tie :
+  (forall t, t < 2 ^ 64 -> CFuns.birthday_encode (Z.of_N t) = Z.of_N (birthday_encode t)) /\
+  (forall b, b < 2 ^ 32 -> CFuns.birthday_decode (Z.of_N b) = Z.of_N (birthday_decode b)).
+Proof. exact (conj tie_birthday_encode tie_birthday_decode). Qed.
+Print Assumptions C11_code_tie.
